@@ -1,5 +1,6 @@
 import PsaDhcp.Model.Fs
 import PsaDhcp.Model.Resources
+import PsaDhcp.Model.Verdict
 import Driver.Util
 /-
 Driver commands for the OS-edge streams (C19, C20).
@@ -44,6 +45,14 @@ def osCmd (cmd : String) (a : Args) : Option String :=
     let fs := runFs (fsInit oldF bufs) acts
     let left := (fs.tmps.filter (·.isSome)).length
     pure s!"target={fileStr fs.target} tmps={left} pcs={String.intercalate "," (fs.ws.map fun w => pcStr w.pc)}"
+  | "catcharp" => do
+    let t ← a.ip? "target"
+    let frames ← (a.get? "frames").bind fun s => if s = "-" then some [] else (s.splitOn ";").mapM unhex
+    pure (match catchARPReply (← t) frames with | some mac => "answer " ++ hex mac | none => "timeout")
+  | "arpverify" => do
+    let outs ← (a.get? "outcomes").bind fun s => if s = "-" then some [] else (s.splitOn ",").mapM fun t =>
+      if t = "-" then some none else (unhex t).map some
+    pure (if arpVerify (← a.hex? "chaddr") outs then "free" else "conflict")
   | "note" => some "ok"     -- a harness annotation (monitor-only case); nothing to compare
   | "resfn" =>
     -- the model's claim for every scenario of the fault enumeration (theorem C19.no_leak): once the
